@@ -33,6 +33,9 @@ namespace riddle
                 case '\n':
                     error("newline in string literal..");
                     return nullptr;
+                case -1:
+                    error("unterminated string literal..");
+                    return nullptr;
                 default:
                     str += ch;
                 }
@@ -51,8 +54,9 @@ namespace riddle
                         return mk_token(EOF_ID);
                     }
             case '*': // in multi-line comment
+                ch = next_char();
                 while (true)
-                    switch (ch = next_char())
+                    switch (ch)
                     {
                     case '*':
                         if ((ch = next_char()) == '/')
@@ -60,7 +64,12 @@ namespace riddle
                             ch = next_char();
                             return next();
                         }
-                        break;
+                        break; // the character following the '*' is examined again: it might be another '*'..
+                    case -1:
+                        error("unterminated comment..");
+                        return nullptr;
+                    default:
+                        ch = next_char();
                     }
             }
             return mk_token(SLASH_ID);
